@@ -208,6 +208,149 @@ theorem next_spec_uniform (d : Dur) (a : TS) (w : Int) (hd : d.Canon) (ha : a.is
     rw [hdiff.2] at hv
     exact key _ ((w - cur) % 7) hdiff.1 hdiff.2 (by omega) (by omega) (by omega)
 
+/-! ### next / previous for every non-dynamical scale (the six uniform scales AND UTC) -/
+
+/-- the jump of `next`, any non-dynamical scale: `k` whole days later in the epoch's own scale, 1 ≤ k ≤ 7, where
+    `k` is the distance from the epoch's current TAI weekday (the weekday the code computes) to `w` -/
+theorem next_jump_nondyn (d : Dur) (a : TS) (w : Int) (hd : d.Canon) (ha : a.nonDyn = true) (hw : 0 ≤ w ∧ w ≤ 6)
+    (hs : Safe d.val) :
+    ∃ r k, (Ep.mk d a).next w = some ⟨r, a⟩ ∧ r.Canon ∧ 1 ≤ k ∧ k ≤ 7 ∧ r.val = d.val + k * 86400000000000 ∧
+      ((instV a d.val / 86400000000000) % 7 + k) % 7 = w := by
+  have hcur := weekday_in_uniform d a .TAI hd ha rfl hs
+  have hoff : off TS.TAI = 0 := rfl
+  rw [hoff, Int.sub_zero] at hcur
+  unfold Ep.next; rw [hcur]; simp only
+  have hc : 0 ≤ (instV a d.val / 86400000000000) % 7 ∧ (instV a d.val / 86400000000000) % 7 ≤ 6 := by omega
+  generalize (instV a d.val / 86400000000000) % 7 = cur at *
+  have hdiff := diff_weekdays cur w hc hw
+  have hz : Dur.ZERO.Canon := by unfold Dur.Canon Dur.ZERO; simp only [NPC_eq]; decide
+  have h7 := unitMulI64_spec Gen.NANOSECONDS_PER_DAY 7 (by unfold unitFactors; simp) (by decide)
+  unfold Safe DMIN DMAX at hs; simp only [NPCs_eq] at hs
+  have key : ∀ (x : Dur) (k : Int), x.Canon → x.val = k * 86400000000000 → 1 ≤ k → k ≤ 7 → (cur + k) % 7 = w →
+      ∃ r k, some (Ep.mk (Dur.add d x) a) = some ⟨r, a⟩ ∧ r.Canon ∧ 1 ≤ k ∧ k ≤ 7 ∧ r.val = d.val + k * 86400000000000 ∧
+        (cur + k) % 7 = w := by
+    intro x k hx hxv hk1 hk7 hwk
+    have ha' := add_spec d x hd hx
+    have hrv : (Dur.add d x).val = d.val + k * 86400000000000 := by rw [ha'.2, hxv, clampD_mid] <;> omega
+    exact ⟨_, k, rfl, ha'.1, hk1, hk7, hrv, hwk⟩
+  by_cases he : Dur.eqb (wdDiff cur w) Dur.ZERO = true
+  · rw [if_pos he]
+    have hv := (eqb_spec _ _ hdiff.1 hz).mp he
+    have hzv : Dur.ZERO.val = 0 := by decide
+    rw [hzv, hdiff.2] at hv
+    exact key _ 7 h7.1 (by rw [h7.2, clampD_mid (x := 7 * Gen.NANOSECONDS_PER_DAY) (by decide) (by decide), NPD_eq]) (by omega) (by omega) (by omega)
+  · rw [if_neg he]
+    have hv : ¬ ((wdDiff cur w).val = 0) := by
+      intro h0; apply he; apply (eqb_spec _ _ hdiff.1 hz).mpr; left; rw [h0]; decide
+    rw [hdiff.2] at hv
+    exact key _ ((w - cur) % 7) hdiff.1 hdiff.2 (by omega) (by omega) (by omega)
+
+/-- the jump of `previous`, any non-dynamical scale: `k` whole days earlier, 1 ≤ k ≤ 7 -/
+theorem previous_jump_nondyn (d : Dur) (a : TS) (w : Int) (hd : d.Canon) (ha : a.nonDyn = true) (hw : 0 ≤ w ∧ w ≤ 6)
+    (hs : Safe d.val) :
+    ∃ r k, (Ep.mk d a).previous w = some ⟨r, a⟩ ∧ r.Canon ∧ 1 ≤ k ∧ k ≤ 7 ∧ r.val = d.val - k * 86400000000000 ∧
+      ((instV a d.val / 86400000000000) % 7 - k) % 7 = w := by
+  have hcur := weekday_in_uniform d a .TAI hd ha rfl hs
+  have hoff : off TS.TAI = 0 := rfl
+  rw [hoff, Int.sub_zero] at hcur
+  unfold Ep.previous; rw [hcur]; simp only
+  have hc : 0 ≤ (instV a d.val / 86400000000000) % 7 ∧ (instV a d.val / 86400000000000) % 7 ≤ 6 := by omega
+  generalize (instV a d.val / 86400000000000) % 7 = cur at *
+  have hdiff := diff_weekdays w cur hw hc
+  have hz : Dur.ZERO.Canon := by unfold Dur.Canon Dur.ZERO; simp only [NPC_eq]; decide
+  have h7 := unitMulI64_spec Gen.NANOSECONDS_PER_DAY 7 (by unfold unitFactors; simp) (by decide)
+  unfold Safe DMIN DMAX at hs; simp only [NPCs_eq] at hs
+  have key : ∀ (x : Dur) (k : Int), x.Canon → x.val = k * 86400000000000 → 1 ≤ k → k ≤ 7 → (cur - k) % 7 = w →
+      ∃ r k, some (Ep.mk (Dur.sub d x) a) = some ⟨r, a⟩ ∧ r.Canon ∧ 1 ≤ k ∧ k ≤ 7 ∧ r.val = d.val - k * 86400000000000 ∧
+        (cur - k) % 7 = w := by
+    intro x k hx hxv hk1 hk7 hwk
+    have ha' := sub_spec d x hd hx
+    have hrv : (Dur.sub d x).val = d.val - k * 86400000000000 := by rw [ha'.2, hxv, clampD_mid] <;> omega
+    exact ⟨_, k, rfl, ha'.1, hk1, hk7, hrv, hwk⟩
+  by_cases he : Dur.eqb (wdDiff w cur) Dur.ZERO = true
+  · rw [if_pos he]
+    have hv := (eqb_spec _ _ hdiff.1 hz).mp he
+    have hzv : Dur.ZERO.val = 0 := by decide
+    rw [hzv, hdiff.2] at hv
+    exact key _ 7 h7.1 (by rw [h7.2, clampD_mid (x := 7 * Gen.NANOSECONDS_PER_DAY) (by decide) (by decide), NPD_eq]) (by omega) (by omega) (by omega)
+  · rw [if_neg he]
+    have hv : ¬ ((wdDiff w cur).val = 0) := by
+      intro h0; apply he; apply (eqb_spec _ _ hdiff.1 hz).mpr; left; rw [h0]; decide
+    rw [hdiff.2] at hv
+    exact key _ ((cur - w) % 7) hdiff.1 hdiff.2 (by omega) (by omega) (by omega)
+
+/-- `previous` for an epoch of ANY uniform scale (mirror of `next_spec_uniform`): 1 to 7 whole days earlier in
+    its own scale, on the requested (TAI) weekday -/
+theorem previous_spec_uniform (d : Dur) (a : TS) (w : Int) (hd : d.Canon) (ha : a.isUniform = true) (hw : 0 ≤ w ∧ w ≤ 6)
+    (hs : Safe d.val) (hs7 : Safe (d.val - 7 * 86400000000000)) :
+    ∃ r k, (Ep.mk d a).previous w = some ⟨r, a⟩ ∧ r.Canon ∧ 1 ≤ k ∧ k ≤ 7 ∧ r.val = d.val - k * 86400000000000 ∧
+      (Ep.mk r a).weekdayIn .TAI = some w := by
+  have hnd : a.nonDyn = true := by cases a <;> simp_all [TS.isUniform, TS.nonDyn]
+  obtain ⟨r, k, r1, r2, k1, k7, rv, hwk⟩ := previous_jump_nondyn d a w hd hnd hw hs
+  refine ⟨r, k, r1, r2, k1, k7, rv, ?_⟩
+  have hrs : Safe r.val := by
+    unfold Safe DMIN DMAX at hs hs7 ⊢; simp only [NPCs_eq] at hs hs7 ⊢; omega
+  rw [weekday_in_uniform r a .TAI r2 hnd rfl hrs, instV_uniform a r.val ha, rv]
+  rw [instV_uniform a d.val ha] at hwk
+  have hoff : off TS.TAI = 0 := rfl
+  rw [hoff]; congr 1; omega
+
+/-- `next` / `previous` for a UTC epoch.  The jump is `k` whole days (k·86 400 s) of the UTC count, 1 ≤ k ≤ 7,
+    chosen from the epoch's TAI weekday; the result falls on the requested TAI weekday whenever TAI−UTC is the
+    same at both ends of the jump (no leap second inserted inside it).  When a leap second IS inserted inside
+    the jump the TAI time of day moves by one second and the TAI weekday of the result can differ from the
+    request only for results within that second of TAI midnight — stated by the hypothesis, not hidden. -/
+theorem next_spec_utc (d : Dur) (w : Int) (hd : d.Canon) (hw : 0 ≤ w ∧ w ≤ 6)
+    (hs : Safe d.val) (hs7 : Safe (d.val + 7 * 86400000000000)) :
+    ∃ r k, (Ep.mk d .UTC).next w = some ⟨r, .UTC⟩ ∧ r.Canon ∧ 1 ≤ k ∧ k ≤ 7 ∧ r.val = d.val + k * 86400000000000 ∧
+      (Ldesc Hifi.C06.builtinDesc r.val = Ldesc Hifi.C06.builtinDesc d.val → (Ep.mk r .UTC).weekdayIn .TAI = some w) := by
+  obtain ⟨r, k, r1, r2, k1, k7, rv, hwk⟩ := next_jump_nondyn d .UTC w hd rfl hw hs
+  refine ⟨r, k, r1, r2, k1, k7, rv, fun hL => ?_⟩
+  have hrs : Safe r.val := by
+    unfold Safe DMIN DMAX at hs hs7 ⊢; simp only [NPCs_eq] at hs hs7 ⊢; omega
+  rw [weekday_in_uniform r .UTC .TAI r2 rfl rfl hrs]
+  have hoff : off TS.TAI = 0 := rfl
+  have hi : instV .UTC r.val = instV .UTC d.val + k * 86400000000000 := by
+    unfold instV; rw [if_pos rfl, if_pos rfl, hL, rv]; omega
+  rw [hoff, hi]; congr 1; omega
+
+theorem previous_spec_utc (d : Dur) (w : Int) (hd : d.Canon) (hw : 0 ≤ w ∧ w ≤ 6)
+    (hs : Safe d.val) (hs7 : Safe (d.val - 7 * 86400000000000)) :
+    ∃ r k, (Ep.mk d .UTC).previous w = some ⟨r, .UTC⟩ ∧ r.Canon ∧ 1 ≤ k ∧ k ≤ 7 ∧ r.val = d.val - k * 86400000000000 ∧
+      (Ldesc Hifi.C06.builtinDesc r.val = Ldesc Hifi.C06.builtinDesc d.val → (Ep.mk r .UTC).weekdayIn .TAI = some w) := by
+  obtain ⟨r, k, r1, r2, k1, k7, rv, hwk⟩ := previous_jump_nondyn d .UTC w hd rfl hw hs
+  refine ⟨r, k, r1, r2, k1, k7, rv, fun hL => ?_⟩
+  have hrs : Safe r.val := by
+    unfold Safe DMIN DMAX at hs hs7 ⊢; simp only [NPCs_eq] at hs hs7 ⊢; omega
+  rw [weekday_in_uniform r .UTC .TAI r2 rfl rfl hrs]
+  have hoff : off TS.TAI = 0 := rfl
+  have hi : instV .UTC r.val = instV .UTC d.val - k * 86400000000000 := by
+    unfold instV; rw [if_pos rfl, if_pos rfl, hL, rv]; omega
+  rw [hoff, hi]; congr 1; omega
+
+/-- the hypothesis of the two UTC theorems is met whenever no table entry lies in the week around the epoch:
+    e.g. everywhere after the last entry plus a week, and everywhere before 1972 -/
+theorem utc_no_leap_far_from_entries (u v : Int) (h : (3692217600 * 1000000000 ≤ u ∧ 3692217600 * 1000000000 ≤ v) ∨
+    (u < 2272060800 * 1000000000 ∧ v < 2272060800 * 1000000000)) :
+    Ldesc Hifi.C06.builtinDesc u = Ldesc Hifi.C06.builtinDesc v := by
+  rw [Hifi.C06.builtin_L_eq_spec, Hifi.C06.builtin_L_eq_spec]
+  congr 1
+  unfold leapAt
+  have hrev : Hifi.C06.iersTbl.reverse = (3692217600, 37) :: (Hifi.C06.iersTbl.reverse).tail := by decide +kernel
+  rcases h with h | h
+  · rw [hrev]; simp only [stepDesc]; rw [if_pos (by omega), if_pos (by omega)]
+  · have hall : ∀ (l : List (Int × Int)) (x : Int), (∀ e ∈ l, x < e.1 * 1000000000) → stepDesc l x = 0 := by
+      intro l x hl
+      induction l with
+      | nil => rfl
+      | cons e l ih =>
+        obtain ⟨t, o⟩ := e
+        simp only [stepDesc]
+        rw [if_neg (by have := hl (t, o) (List.mem_cons_self ..); simp only at this; omega)]
+        exact ih (fun e he => hl e (List.mem_cons_of_mem _ he))
+    have hmin : ∀ e ∈ Hifi.C06.iersTbl.reverse, 2272060800 ≤ e.1 := by decide +kernel
+    rw [hall _ u (fun e he => by have := hmin e he; omega), hall _ v (fun e he => by have := hmin e he; omega)]
+
 /-- UTC accessor: the weekday of a UTC epoch is the civil weekday of its UTC date … -/
 theorem weekday_utc_own_scale (d : Dur) (hd : d.Canon) :
     (Ep.mk d .UTC).weekdayIn .UTC = some ((d.val / 86400000000000) % 7) := by
